@@ -6,11 +6,17 @@ ZOO = "legacy"
 
 
 def classify_line(ln, outcome, clause, mv=None):
-    """modelled operations: known iff the post-state is exactly the one Legacy.tla predicts and the model's error came
-    out of the attach phase (the named deviation); user transformations (not modelled): by the shape predicates"""
-    if mv is not None:
-        return "partial-attach-effects" if mv["conform"] and mv["partial"] else None
-    return legacy.finding_partial_attach(ln, outcome, clause) or legacy.finding_transformer_partial(ln, outcome, clause)
+    """known iff the observed post-state is exactly the one Legacy.tla predicts and the model's error left effects behind
+    by design: out of the attach phase (partial-attach-effects), or out of ASTTransformer.execute after earlier
+    replacements (transformer-partial-effects).  A visitor transformation that leaves effects is not on file."""
+    if mv is None or not (mv["conform"] and mv["partial"]):
+        return None
+    kind = ln["op"]["op"]
+    if kind == "texec":
+        return "transformer-partial-effects"
+    if kind == "tvisit":
+        return None
+    return "partial-attach-effects"
 
 
 def run(chk):
